@@ -177,6 +177,9 @@ class C09(CheckBase):
         case = {'kind': kind, 'dialect': d, 'listo': listo, 'delivery': delivery}
         if kind in ('prefix', 'rfail', 'chunk', 'corrupt', 'prefix_all', 'corrupt_all'):
             f = self.gen_file(rng, d, small=(kind in ('prefix_all', 'corrupt_all') and tier == 'quick') or kind == 'corrupt_all' and rng.chance(0.7))
+            if kind in ('prefix_all', 'corrupt_all') and len(f['lines']) > 130:
+                # the exhaustive kinds cost one run per byte (or six): the 255..1024-line programs are for the sampled kinds
+                f['lines'] = f['lines'][:130]
             case['file'] = f
             if kind == 'prefix':
                 case['mut'] = self.gen_cut(rng, f)
